@@ -209,6 +209,12 @@ func propC07(r *Run) {
 				for _, s := range []string{"", ":", "a:b", "::", t.text + "A", t.text + "=", "A" + t.text, t.text + ":" + t.text, strings.Repeat("A", 16) + ":" + strings.Repeat("A", 40)} {
 					present(t.factory, s, "arbitrary text")
 				}
+				// the issued nonce followed by further bytes, ciphertext untouched (and the reverse)
+				for _, extra := range [][]byte{{0}, {0xff}, []byte("AAAA"), t.nonce, make([]byte, 12)} {
+					present(t.factory, base64.URLEncoding.EncodeToString(append(append([]byte(nil), t.nonce...), extra...))+":"+base64.URLEncoding.EncodeToString(t.ct), fmt.Sprintf("nonce extended by %d bytes", len(extra)))
+					present(t.factory, base64.URLEncoding.EncodeToString(append(append([]byte(nil), extra...), t.nonce...))+":"+base64.URLEncoding.EncodeToString(t.ct), fmt.Sprintf("nonce prefixed by %d bytes", len(extra)))
+					present(t.factory, base64.URLEncoding.EncodeToString(t.nonce)+":"+base64.URLEncoding.EncodeToString(append(append([]byte(nil), t.ct...), extra...)), fmt.Sprintf("ciphertext extended by %d bytes", len(extra)))
+				}
 				// the same bytes, split differently between the two parts (canonically re-encoded)
 				all := append(append([]byte(nil), t.nonce...), t.ct...)
 				for k := 0; k <= len(all); k++ {
@@ -320,6 +326,68 @@ func propC07(r *Run) {
 				}
 			}
 			r.Count("probe:concurrent-check-rounds")
+		}
+		// concurrent issuance (parallel logins on one listener): no two tokens of a factory share a
+		// nonce, and every token opens as the user it was issued for
+		if r.Choose("concurrent-issuance", 2) == 1 {
+			sched := simrt.NewSched()
+			simrt.S = sched
+			type gjob struct {
+				user  string
+				admin bool
+				fi    int
+				text  string
+				st    int
+				done  bool
+				pan   any
+			}
+			var gjobs []*gjob
+			for i, iN := 0, 2+r.Choose("ngen", 3); i < iN; i++ {
+				j := &gjob{user: users[r.Choose("gen-user", len(users))], admin: r.Choose("gen-admin", 2) == 1, fi: r.Choose("gen-factory", nf)}
+				gjobs = append(gjobs, j)
+				name := fmt.Sprintf("issuer%d", i)
+				go func() {
+					sched.Register(name)
+					simrt.Yield("start")
+					defer func() { j.pan = recover(); j.done = true }()
+					j.st, _, j.text = facs[j.fi].Generate(j.user, j.admin)
+				}()
+			}
+			for guard := 0; guard < 4000; guard++ {
+				synctest.Wait()
+				rs := sched.Runnable()
+				if len(rs) == 0 {
+					break
+				}
+				sched.Release(rs[r.Choose("gen-who", len(rs))], nil)
+			}
+			simrt.S = nil
+			seen := map[string]string{}
+			for _, t := range toks {
+				if t.factory >= 0 {
+					seen[fmt.Sprint(t.factory)+"/"+string(t.nonce)] = "an earlier token for " + t.user
+				}
+			}
+			for _, j := range gjobs {
+				if !j.done || j.pan != nil || j.st != 200 {
+					r.Fail("token/generate-failed", "concurrent Generate for %s did not produce a token: status %d panic %v", j.user, j.st, j.pan)
+				}
+				n, _, ok := decodeTok(j.text)
+				if !ok {
+					r.Fail("token/generate-failed", "concurrent Generate produced an undecodable token %s", simrt.Q(j.text))
+				}
+				k := fmt.Sprint(j.fi) + "/" + string(n)
+				if prev, dup := seen[k]; dup {
+					r.Fail("token/nonce-reused", "factory %d used nonce %x for the token of %s and for %s (tokens issued concurrently)", j.fi, n, j.user, prev)
+				}
+				seen[k] = "the concurrently issued token for " + j.user
+				st, _, u, a := facs[j.fi].Check(j.text)
+				presented++
+				if st != 200 || u != j.user || a != j.admin {
+					r.Fail("token/identity-under-concurrency", "a token issued concurrently for (%s,%v) opens as status %d (%s,%v)", j.user, j.admin, st, u, a)
+				}
+			}
+			r.Count("probe:concurrent-issuance-rounds")
 		}
 		r.Add("evaluations", presented)
 		r.Steps += presented
